@@ -244,9 +244,12 @@ func (vm *VM) exec(pc bytecode, vars []Variable, cont Cont, args []Term, astack 
 		case opExit:
 			return cont(env)
 		case opCut:
-			return cut(cutParent, func(context.Context) *Promise {
-				return vm.exec(pc, vars, cont, args, astack, env, cutParent)
+			// The cut pops cutParent off the stack, so a later cut of the same clause has to cut back to this promise instead.
+			var c *Promise
+			c = cut(cutParent, func(context.Context) *Promise {
+				return vm.exec(pc, vars, cont, args, astack, env, c)
 			})
+			return c
 		case opGetList:
 			l := operand.(Integer)
 			arg, astack = args[0], append(astack, args[1:])
